@@ -30,10 +30,18 @@
 use crate::types::Value;
 use crate::RuleEngineError;
 use std::collections::HashMap;
+#[cfg(rre_verif)]
+use crate::verif_hooks::fs;
+#[cfg(not(rre_verif))]
 use std::fs;
 use std::io::{Read, Write};
 use std::path::PathBuf;
 use std::sync::{Arc, RwLock};
+#[cfg(rre_verif)]
+use crate::verif_hooks::SystemTime;
+#[cfg(rre_verif)]
+use std::time::{Duration, UNIX_EPOCH};
+#[cfg(not(rre_verif))]
 use std::time::{Duration, SystemTime, UNIX_EPOCH};
 
 #[cfg(feature = "streaming-redis")]
